@@ -34,6 +34,7 @@ pub fn run_case2(f: &[&str], _home: &std::path::Path) -> String {
             let r = Request{ method: "GET".into(), request_uri: "/".into(), http_version: "HTTP/1.1".into(), headers: hs.unwrap(), body: vec![] };
             match std::panic::catch_unwind(|| r.get_header(n.unwrap()).map(|h| h.value.clone())) { Err(_) => "PANIC".to_string(), Ok(None) => "NONE".to_string(), Ok(Some(v)) => format!("SOME {}", hex(v.as_bytes())) }
         }
+        "pool" => crate::pool::run_pool(f),
         _ => "?".to_string(),
     }
 }
